@@ -299,7 +299,11 @@ impl Drop for Stopper {
     /// Note that this destructor only sends the worker thread a signal to
     /// stop, it doesn't wait for it to stop.
     fn drop(&mut self) {
+        #[cfg(cadence_verif)]
+        crate::verif::point("q.drop.begin", Arc::as_ptr(&self.worker) as usize, 0, 0);
         self.worker.stop();
+        #[cfg(cadence_verif)]
+        crate::verif::point("q.drop.end", Arc::as_ptr(&self.worker) as usize, 0, 0);
     }
 }
 
@@ -403,6 +407,8 @@ impl<'a> Drop for Sentinel<'a> {
             // that this was a panic and spawn a new thread with an Arc of
             // the worker.
             self.worker.stats.incr_panic();
+            #[cfg(cadence_verif)]
+            crate::verif::point("q.respawn", Arc::as_ptr(self.worker) as usize, self.worker.stats.panics(), 0);
             spawn_worker_in_thread(self.worker.clone());
         }
     }
@@ -461,19 +467,33 @@ impl Worker {
     }
 
     fn submit(&self, v: String) -> Result<(), TrySendError<Option<String>>> {
+        #[cfg(cadence_verif)]
+        crate::verif::point("q.submit.begin", self as *const Self as usize, 0, 0);
         let res = self.sender.try_send(Some(v));
+        #[cfg(cadence_verif)]
+        crate::verif::point("q.submit.sent", self as *const Self as usize, res.is_ok() as u64, 0);
         if res.is_ok() {
             self.stats.incr_submitted();
         }
+        #[cfg(cadence_verif)]
+        crate::verif::point("q.submit.end", self as *const Self as usize, res.is_ok() as u64, 0);
 
         res
     }
 
     fn run(&self) {
+        #[cfg(cadence_verif)]
+        crate::verif::point("q.run.enter", self as *const Self as usize, 0, 0);
         for opt in self.receiver.iter() {
+            #[cfg(cadence_verif)]
+            crate::verif::point("q.recv", self as *const Self as usize, opt.is_some() as u64, 0);
             if let Some(v) = opt {
                 self.stats.incr_drained();
+                #[cfg(cadence_verif)]
+                crate::verif::point("q.drained", self as *const Self as usize, 0, 0);
                 (self.task)(v);
+                #[cfg(cadence_verif)]
+                crate::verif::point("q.task.done", self as *const Self as usize, 0, 0);
             } else {
                 break;
             }
@@ -483,6 +503,8 @@ impl Worker {
         // method will see that we've stopped processing entries in the channel.
         // This is only for the benefit of unit testing.
         self.stopped.store(true, Ordering::Release);
+        #[cfg(cadence_verif)]
+        crate::verif::point("q.exit", self as *const Self as usize, 0, 0);
     }
 
     fn stop(&self) {
@@ -490,11 +512,21 @@ impl Worker {
         // currently full, hand the poison pill to a short-lived thread that can
         // wait for room so that it is never lost and the caller never blocks.
         if let Err(TrySendError::Full(pill)) = self.sender.try_send(None) {
+            #[cfg(cadence_verif)]
+            crate::verif::point("q.stop.full", self as *const Self as usize, 0, 0);
             let sender = self.sender.clone();
+            #[cfg(cadence_verif)]
+            let verif_obj = self as *const Self as usize;
             let _ = thread::Builder::new().spawn(move || {
+                #[cfg(cadence_verif)]
+                crate::verif::point("q.helper.begin", verif_obj, 0, 0);
                 let _ = sender.send(pill);
+                #[cfg(cadence_verif)]
+                crate::verif::point("q.helper.sent", verif_obj, 0, 0);
             });
         }
+        #[cfg(cadence_verif)]
+        crate::verif::point("q.stop.done", self as *const Self as usize, 0, 0);
     }
 
     // Stop reading events from the channel and wait for the "stopped" flag
